@@ -53,7 +53,7 @@ def findCI (a : ByteArray) (i : Nat) (p : ByteArray) : Nat := Id.run do
   return a.size
 
 def slice (a : ByteArray) (i j : Nat) : String :=
-  String.fromUTF8! (a.extract i j)   -- prototype only; final version keeps bytes
+  match String.fromUTF8? (a.extract i j) with | some s => s | none => "\uFFFD"   -- invalid UTF-8 is replaced, never a panic
 
 def isVoidName (n : String) : Bool :=
   n ∈ ["area","base","br","col","embed","hr","img","input","link","meta","param","source","track","wbr"]
